@@ -13,9 +13,13 @@ CONSTANTS
  MaxAdmin = 1000000
  MaxClose = 1000
  MaxInval = 1000
+ MaxCompact = 1000
  FixRelease = TRUE
  DevReleaseRace = FALSE
  DevPutIfOwnerOther = FALSE
+ DevReacqBlind = FALSE
+ DevDropSameRev = FALSE
+ DevNoReload = FALSE
  FixRev = TRUE
  KeepHist = TRUE
 INIT TInit
